@@ -145,7 +145,9 @@ def _history(draw, tier):
         qi = draw(st.integers(0, len(pool) - 1))
         kind = draw(st.sampled_from(["full", "full", "partial", "partial", "raising"]))
         if kind == "partial":
-            ops.append(["partial", qi, draw(st.integers(0, 3)), draw(st.sampled_from(["close", "drop"]))])
+            # (given up by close(), by dropping the last reference, or simply left open: never advanced again but still
+            # referenced until the end of the history)
+            ops.append(["partial", qi, draw(st.integers(0, 3)), draw(st.sampled_from(["close", "drop", "keep"]))])
             if draw(st.booleans()):
                 ops.append(["full", qi])       # what an abandoned evaluation left behind is read back at once
         elif kind == "raising":
@@ -302,6 +304,7 @@ def check(case) -> Outcome:
             shared = builts[spec["share_with"]].conds if spec.get("share_with") is not None else None
             builts.append(_build_sharing(V, spec, conts, shared))
         twins = {}
+        kept_open = []
         first_lists = {}
         disturbed_vars = set()      # variables of queries whose evaluation was abandoned or aborted so far
         nontrivial = False
@@ -379,6 +382,10 @@ def check(case) -> Outcome:
                         break
                 if op[3] == "close":
                     it.close()
+                elif op[3] == "keep" and taken:
+                    kept_open.append(it)
+                    if "given_up_iterator_left_open" not in classes:
+                        classes.append("given_up_iterator_left_open")
                 else:
                     del it
                     gc.collect()
